@@ -56,18 +56,20 @@ def gen_hps(rng):
                 st.enter_context(hps.name_scope("s%d" % rng.randint(0, 1)))
             n = "h%d" % i; k = rng.choice(["int", "intd", "intlog", "float", "floatstep", "floatlog", "choice_s", "choice_i", "choice_f", "choice_ord", "bool", "fixed"])
             try:
-                if k == "int": hps.Int(n, rng.randint(-5, 0), rng.randint(1, 9))
+                # zero-like defaults and values (0, 0.0, False) where they are NOT the lower bound: "unset" and "zero" must not be confused
+                if k == "int":
+                    lo = rng.randint(-5, 0); hi = rng.randint(1, 9); hps.Int(n, lo, hi, default=rng.choice([None, None, 0, lo, hi]))
                 elif k == "intd": hps.Int(n, 0, 10, step=rng.choice([None, 2, 5]), default=rng.choice([0, 4, 10]))
                 elif k == "intlog": hps.Int(n, 1, 64, step=rng.choice([None, 2]), sampling=rng.choice(["log", "reverse_log"]))
-                elif k == "float": hps.Float(n, -1.5, 2.5, default=rng.choice([None, -1.5, 0.25]))
+                elif k == "float": hps.Float(n, -1.5, 2.5, default=rng.choice([None, -1.5, 0.25, 0.0]))
                 elif k == "floatstep": hps.Float(n, 0.0, 1.0, step=0.25, default=rng.choice([None, 0.5]))
                 elif k == "floatlog": hps.Float(n, 1e-4, 1e-1, sampling="log", step=rng.choice([None, 10]))
                 elif k == "choice_s": hps.Choice(n, ["a", "b", "c"][: rng.randint(1, 3)], default=rng.choice([None, "a"]))
-                elif k == "choice_i": hps.Choice(n, [3, 1, 2], default=rng.choice([None, 1]))
-                elif k == "choice_f": hps.Choice(n, [0.5, 0.1])
+                elif k == "choice_i": hps.Choice(n, [3, 1, 2, 0][: rng.randint(3, 4)], default=rng.choice([None, 1]))
+                elif k == "choice_f": hps.Choice(n, [0.5, 0.1, 0.0][: rng.randint(2, 3)])
                 elif k == "choice_ord": hps.Choice(n, [1, 2, 3], ordered=rng.choice([True, False]))
                 elif k == "bool": hps.Boolean(n, default=rng.random() < 0.5)
-                else: hps.Fixed(n, rng.choice([1, 2.5, "x", False]))
+                else: hps.Fixed(n, rng.choice([1, 2.5, "x", False, 0, 0.0, True]))
             except ValueError:
                 pass
     for h in hps.space:
